@@ -423,7 +423,7 @@ type worldCfg struct {
 	// to leave no trace if the implementation rejects it (C08 does not decide
 	// whether it must be rejected)
 	ErrorsSpeculative bool
-	GetKeys    bool // invariant GetItem of every pool key
+	GetKeys           bool // invariant GetItem of every pool key
 }
 
 type world struct {
@@ -672,9 +672,9 @@ func (w *world) whitebox(d drv.Real, tn string, mt *model.Table) *failure {
 
 // historyCase is the replayable form of a stateful case.
 type historyCase struct {
-	Cfg  worldCfg              `json:"cfg"`
+	Cfg  worldCfg                `json:"cfg"`
 	Pool map[string][]model.Item `json:"pool,omitempty"`
-	Ops  []model.Op            `json:"ops"`
+	Ops  []model.Op              `json:"ops"`
 }
 
 func (w *world) asCase() historyCase {
